@@ -200,12 +200,47 @@ fn reissue_menu() -> Menu {
     Menu { delay: true, bind_faults: vec![crate::simnet::EADDRINUSE], connect_faults: vec![crate::simnet::EADDRINUSE], ..Menu::default() }
 }
 
+fn table_pressure_run(t: &c01::Task) -> (drive::RunOutcome, Vec<(String, String)>) {
+    let topo = drive::topo_named(&t.cell, t.topo);
+    let mut net = drive::net_cfg(&t.cell, &t.params, topo, Menu::default());
+    net.tcp_rtt_ns = Some(35_000);
+    let o = drive::run_trace(&t.cell, &t.params, net, Chooser::new(&[], 0));
+    let mut bad = c01::judge(t, &o);
+    let margin = 2 * t.params.read_timeout.as_nanos() as u64;
+    for (idx, ready_at) in o.world.unpolled_tcp_answers() {
+        let s = &o.world.sent[idx];
+        if let Some(pb) = o.world.publishes.get(s.round) {
+            if ready_at + margin <= pb.time_ns {
+                bad.push(("handshake-answer-never-looked-at".into(), format!("round {}: the target answered the SYN of probe ttl={} seq={:?} at t={ready_at}ns; the round was published at t={}ns and the tracer never polled that connection", s.round, s.ttl, s.seq, pb.time_ns)));
+            }
+        }
+    }
+    if o.panic.is_none() && !o.world.publishes.get(2).is_some_and(|p| p.target_found) && bad.is_empty() {
+        bad.push(("MACHINERY-scenario".into(), "the target was not found in round 2 although nothing was withheld".into()));
+    }
+    (o, bad)
+}
+
 pub fn replay(path: &str) -> i32 {
     let s = std::fs::read_to_string(path).expect("MACHINERY: cannot read replay file");
     let v: Value = serde_json::from_str(&s).expect("MACHINERY: replay JSON");
     let r = if v.get("replay").is_some() { &v["replay"] } else { &v };
     if r["check"].as_str() == Some("C02x") {
         return c01::replay_as(path, "C02");
+    }
+    if r["check"].as_str() == Some("C02p") {
+        let (t, _) = c01::load_task(path);
+        let (o, bad) = table_pressure_run(&t);
+        c01::print_trace(&o);
+        for (k, d) in &bad {
+            println!("DISCREPANCY {k}: {d}");
+        }
+        if bad.is_empty() {
+            println!("replay: property held");
+            return 0;
+        }
+        println!("VIOLATION property=C02 replay={path}");
+        return 1;
     }
     if r["check"].as_str() == Some("C02r") {
         return c01::replay_as_menu(path, "C02", reissue_menu());
@@ -412,6 +447,38 @@ pub fn run(args: &Args) -> i32 {
             }
         }
     });
+    // the channel's table of outstanding TCP connection attempts under pressure: two silent rounds of
+    // 254 attempts with a long connect timeout fill it (256 entries), then the target (distance 100)
+    // starts answering with a handshake round-trip of 3.5 send slots - every attempt started from then on
+    // evicts another.  Judge: ground truth + "no handshake answer that reached this host well
+    // before its round was published was left unlooked-at".
+    let mut pressure_runs = 0u64;
+    let mut pressure_answers = 0u64;
+    for cell in all_cells().into_iter().filter(|c| c.proto == Proto::Tcp && !c.ext) {
+        let p = TraceParams {
+            rounds: 4,
+            max_ttl: 254,
+            max_inflight: 255,
+            read_timeout: Duration::from_micros(10),
+            min_round: Duration::from_micros(10 * 260),
+            max_round: Duration::from_micros(10 * 260),
+            grace: Duration::from_micros(1),
+            tcp_connect_timeout: Duration::from_millis(20),
+            packet_size: if cell.v6 { 96 } else { 84 },
+            ..TraceParams::default()
+        };
+        let t = c01::Task { cell, topo: "far-target-from-round-2", params: p.clone(), bound: 0 };
+        let (o, bad) = table_pressure_run(&t);
+        pressure_runs += 1;
+        pressure_answers += o.world.deliveries.iter().filter(|d| d.genuine).count() as u64;
+        let mut f = findings.lock().unwrap();
+        for (k, detail) in bad {
+            let key = format!("tcp-table-pressure:{k}");
+            f.entry(key.clone()).or_insert_with(|| Finding { key, detail: format!("[{} far-target-from-round-2] {detail}", cell.name()), replay: c01::replay_json("C02p", &t, &[]), weight: (0, 0), count: 1 });
+        }
+    }
+    rep.set("tcp_table_pressure_runs", json!(pressure_runs));
+    rep.set("tcp_table_pressure_handshake_answers_recognised", json!(pressure_answers));
     let (rstats, ranswers) = ragg.into_inner().unwrap();
     rep.set("tcp_reissue_executions", json!(rstats.executions));
     rep.set("tcp_reissue_answers_checked_in_runs_with_a_reissue", json!(ranswers));
@@ -428,7 +495,7 @@ pub fn run(args: &Args) -> i32 {
     rep.set("min_distinct_sequences_per_cell", json!(min_cov));
     rep.set("cells_with_full_sequence_range", json!(full_cov));
     rep.observe("quotations_with_altered_flow_port_accepted", json!(flow_port));
-    rep.set("rule", json!(format!("56 cells; the real strategy (first_ttl 1, max_ttl 254, max_inflight 255, initial_sequence 0) runs until the allocator wraps, so every sequence it can issue (0..=65276, Dublin/IPv6: 0..=765) is emitted by real dispatch code and answered at once by a hop with quotation shape (ttl-1+offset) mod {NSHAPES} ({{hdr+8,+28,+64,full,unreachable,ttl 0,cksum 0,tos,outer IHL 6/15,RFC4884 compliant/legacy,combo}}); quick: one shape offset per cell, thorough: all {NSHAPES} offsets = full product sequence x shape; + boundary initial sequences, 1024-octet probes (truncated quotations), target-originated answers one probe per round (Echo Reply / port unreachable / SYN-ACK). Oracle: ground-truth check of every published slot (C01's). Negative half: every response altered in one identity field (destination, pinned port - each of the two when both are pinned -, protocol, Dublin magic - one octet flipped, or a foreign datagram carrying only the first 0..5 octets of it -, ICMP identifier): no slot may complete. + tcp cells x {{L2,L3,silent-mid,dup}} x connect timeout {{5,15,25,35}} ms, all executions with <= 2 (3 thorough) deviations (attempts expiring while younger ones complete); + tcp cells x {{L2,L3,silent-mid}} with address-in-use offered at every bind and connect (the probe is re-issued under the next sequence) and delays, same bound: answers to re-issued probes are attributed to them. distinct_nontrivial = recognised answers + altered quotations")));
+    rep.set("rule", json!(format!("56 cells; the real strategy (first_ttl 1, max_ttl 254, max_inflight 255, initial_sequence 0) runs until the allocator wraps, so every sequence it can issue (0..=65276, Dublin/IPv6: 0..=765) is emitted by real dispatch code and answered at once by a hop with quotation shape (ttl-1+offset) mod {NSHAPES} ({{hdr+8,+28,+64,full,unreachable,ttl 0,cksum 0,tos,outer IHL 6/15,RFC4884 compliant/legacy,combo}}); quick: one shape offset per cell, thorough: all {NSHAPES} offsets = full product sequence x shape; + boundary initial sequences, 1024-octet probes (truncated quotations), target-originated answers one probe per round (Echo Reply / port unreachable / SYN-ACK). Oracle: ground-truth check of every published slot (C01's). Negative half: every response altered in one identity field (destination, pinned port - each of the two when both are pinned -, protocol, Dublin magic - one octet flipped, or a foreign datagram carrying only the first 0..5 octets of it -, ICMP identifier): no slot may complete. + tcp cells x {{L2,L3,silent-mid,dup}} x connect timeout {{5,15,25,35}} ms, all executions with <= 2 (3 thorough) deviations (attempts expiring while younger ones complete); + tcp cells x {{L2,L3,silent-mid}} with address-in-use offered at every bind and connect (the probe is re-issued under the next sequence) and delays, same bound: answers to re-issued probes are attributed to them; + tcp cells, table of outstanding connection attempts full (two silent rounds of 254 attempts, connect timeout 20 ms), then the target at distance 100 answers with a handshake round-trip of 3.5 send slots: ground truth + no handshake answer that reached the host two read timeouts before its round was published is left unlooked-at. distinct_nontrivial = recognised answers + altered quotations")));
     for s in samples {
         rep.sample(s);
     }
